@@ -698,10 +698,10 @@ def run(tier):
             'land in the latched batch and are discarded - argued)',
             'crash of a worker',
         ])
-    rule_r1_r2(chk, prog)
-    rule_r3(chk, prog)
-    rule_r4(chk, prog)
-    rule_adopt_write(chk, prog)
+    chk.guard(rule_r1_r2, chk, prog)
+    chk.guard(rule_r3, chk, prog)
+    chk.guard(rule_r4, chk, prog)
+    chk.guard(rule_adopt_write, chk, prog)
     extra = None
     if tier == 'thorough':
         from .. import selftest
